@@ -52,8 +52,8 @@ func getHTTP() *httpstor.Server {
 
 func gen(r *rand.Rand, idx int, tier string) Input {
 	var in Input
-	// thorough: every third history goes through the HTTP handlers; quick: one in twelve (smoke)
-	in.HTTP = (tier == "thorough" && idx%3 == 1) || (tier != "thorough" && idx%12 == 5)
+	// thorough: every third history goes through the HTTP handlers; quick: one in five
+	in.HTTP = (tier == "thorough" && idx%3 == 1) || (tier != "thorough" && idx%5 == 2)
 	napps := 1 + r.Intn(2)
 	var all [][]stor.SeriesDef
 	aggs := []string{}
@@ -98,10 +98,12 @@ func gen(r *rand.Rand, idx int, tier string) Input {
 			maxT = until
 		}
 		// unaligned variants that normalise to the same window
-		if r.Intn(4) == 0 {
+		// unaligned variants that normalise to the same window; through HTTP more often, incl. windows shorter
+		// than 10 s that cross a slot boundary (from = slot+8, until = next slot+2)
+		if r.Intn(4) == 0 || (in.HTTP && r.Intn(2) == 0) {
 			from += r.Int63n(10)
 		}
-		if r.Intn(6) == 0 {
+		if r.Intn(6) == 0 || (in.HTTP && r.Intn(2) == 0) {
 			until -= 1 + r.Int63n(9)
 		}
 		return stor.Op{Kind: "put", Name: s.RandName(r), From: from, Until: until,
